@@ -172,6 +172,13 @@ func (f *Frame) analyzeLoops() {
 		hs = append(hs, h)
 	}
 	sort.Slice(hs, func(i, j int) bool { return hs[i].Index < hs[j].Index })
+	if f.fc != nil && !f.specMode {
+		for k := range f.fc.Loops {
+			if k > len(hs) {
+				f.g.degrade("loop %d of the contract of %s does not exist any more (the function has %d loops)", k, fnDisplay(f.fn), len(hs))
+			}
+		}
+	}
 	for i, h := range hs {
 		li := f.loops[h]
 		li.ordinal = i + 1
@@ -389,6 +396,7 @@ func (f *Frame) specEnv(cur *State, at *ssa.BasicBlock, atIdx int, phiSubst map[
 		}
 	}
 	if li != nil {
+		e.loopEntry = li.entrySt
 		e.mapIter = func() *mapRange {
 			for b := range li.body {
 				for _, ins := range b.Instrs {
@@ -792,6 +800,7 @@ func (f *Frame) loopHeader(b *ssa.BasicBlock, bi *BInfo, li *loopInfo, phiEntry 
 	li.entrySt = entry.clone()
 	if li.lc == nil && !f.specMode {
 		g.note("loop %d of %s has no invariant: everything it may change is havocked", li.ordinal, fnDisplay(f.fn))
+		g.degrade("loop %d of %s has no invariant in the contract", li.ordinal, fnDisplay(f.fn))
 	}
 	// 1. invariant on entry
 	if li.lc != nil {
@@ -852,6 +861,10 @@ func (f *Frame) loopHeader(b *ssa.BasicBlock, bi *BInfo, li *loopInfo, phiEntry 
 		f.vals[p] = v
 		if w := g.wfFacts(st, v); w != "true" {
 			g.assert(sImp(bi.R, w))
+		}
+		if p.Comment == "rangeindex" {
+			// the compiler-generated index of a range loop starts at -1 and only grows
+			g.assert(sImp(bi.R, sLe("(- 1)", c)))
 		}
 	}
 	bi.in = st
